@@ -40,6 +40,7 @@ struct Stats {
     per_kind: BTreeMap<&'static str, usize>,
     per_depth: Vec<usize>,
     distinct_candidate_schedules: usize,
+    guided_roots: usize,
 }
 
 fn neighbourhood(a: &Arena, limited: bool) -> RSSchedParallelNeighborhood {
@@ -49,6 +50,85 @@ fn neighbourhood(a: &Arena, limited: bool) -> RSSchedParallelNeighborhood {
     } else {
         RSSchedParallelNeighborhood::new(None, None, a.nw.clone())
     }
+}
+
+/// candidates of `base`, generated on a fresh single-threaded pool whose thread has the hash seed GEN_SEED:
+/// what the neighbourhood offers depends on hash-map iteration orders inside the subject, so the explorer
+/// owns them (the same walk then yields the same schedules in every process)
+fn generate(nb: &RSSchedParallelNeighborhood, base: &ScheduleWithInfo) -> Result<Vec<ScheduleWithInfo>, (String, String)> {
+    if std::env::var("RSV_UNCONTROLLED").is_ok() {
+        // development aid: free-running generation on the global pool (hash orders and thread interleaving not owned)
+        return std::panic::catch_unwind(std::panic::AssertUnwindSafe(|| nb.neighbors_of(base).collect::<Vec<ScheduleWithInfo>>())).map_err(|_| crate::pool::take_last_panic_any_thread().unwrap_or(("?".into(), "?".into())));
+    }
+    crate::pool::run_isolated_tl(GEN_SEED.load(std::sync::atomic::Ordering::SeqCst), || nb.neighbors_of(base).collect::<Vec<ScheduleWithInfo>>())
+}
+
+/// hash seed of the candidate generation (set per exploration)
+static GEN_SEED: std::sync::atomic::AtomicU64 = std::sync::atomic::AtomicU64::new(1);
+
+fn tours_text(a: &Arena, s: &solution::Schedule) -> String {
+    s.vehicles_iter_all().chain(s.dummy_iter()).map(|v| format!("{}: {:?}", v, s.tour_of(v).unwrap().all_nodes_iter().map(|n| a.nw.node(n).id().to_string()).collect::<Vec<_>>())).collect::<Vec<_>>().join("; ")
+}
+
+fn real_tours(s: &solution::Schedule) -> BTreeMap<String, Vec<usize>> {
+    s.vehicles_iter_all().map(|v| (format!("{}", v), s.tour_of(v).unwrap().all_nodes_iter().map(|n| n.idx() as usize).collect())).collect()
+}
+
+fn dummy_shape(s: &solution::Schedule) -> (usize, usize) {
+    let ds: Vec<_> = s.dummy_iter().collect();
+    (ds.len(), ds.iter().map(|d| s.tour_of(*d).unwrap().all_nodes_iter().count()).sum())
+}
+
+/// Roots far from the start solution, each reached by a *guided walk* of real neighbourhood steps (so they are
+/// reachable schedules in the sense of the property, and a violation found from them replays from the start):
+/// for each vehicle v of the start solution, take node-removal candidates that shorten v's tour (all other
+/// vehicles unchanged) until v is gone, then take dummy-to-dummy path exchanges that merge two dummy tours
+/// until none is offered.  The result holds dummy tours with several activities next to the remaining vehicles.
+fn guided_roots(nb: &RSSchedParallelNeighborhood, start: &solution::Schedule) -> Vec<(ScheduleWithInfo, Vec<String>)> {
+    let mut out = vec![];
+    let vehicles: Vec<_> = start.vehicles_iter_all().take(3).collect();
+    for v in vehicles {
+        let mut cur = ScheduleWithInfo::new(start.clone(), SwapInfo::NoSwap, "start".into());
+        let mut walk: Vec<String> = vec![];
+        let mut ok = true;
+        for _ in 0..16 {
+            let s = cur.get_schedule();
+            let removing = s.is_vehicle(v);
+            let before = real_tours(s);
+            let (nd, nn) = dummy_shape(s);
+            let vname = format!("{}", v);
+            let cands = match generate(nb, &cur) {
+                Ok(c) => c,
+                Err(_) => {
+                    ok = false; // the panic itself is reported when this state is expanded by the explorer, if it is reached there
+                    break;
+                }
+            };
+            let next = cands.into_iter().find(|c| {
+                let t = c.get_schedule();
+                let after = real_tours(t);
+                if removing {
+                    matches!(c.get_last_swap_info(), SwapInfo::RemoveSingleNode(_))
+                        && before.iter().all(|(k, tour)| if *k == vname { after.get(k).map(|x| x.len() + 1 == tour.len()).unwrap_or(true) } else { after.get(k) == Some(tour) })
+                        && after.keys().all(|k| before.contains_key(k))
+                } else {
+                    let (nd2, nn2) = dummy_shape(t);
+                    matches!(c.get_last_swap_info(), SwapInfo::PathExchange(_)) && after == before && nd2 + 1 == nd && nn2 == nn
+                }
+            });
+            match next {
+                Some(n) => {
+                    walk.push(n.get_print_text().to_string());
+                    cur = n;
+                }
+                None => break,
+            }
+        }
+        if ok && !walk.is_empty() {
+            out.push((cur, walk));
+        }
+    }
+    out
 }
 
 fn explore(a: &Arena, arena_id: usize, depth: usize, limited: bool, st: &mut Stats, found: &mut Vec<Found>) {
@@ -66,17 +146,28 @@ fn explore(a: &Arena, arena_id: usize, depth: usize, limited: bool, st: &mut Sta
     };
     let mut seen: HashSet<String> = HashSet::new();
     seen.insert(ranked_key(&start));
-    let mut frontier: Vec<(ScheduleWithInfo, Vec<String>)> = vec![(ScheduleWithInfo::new(start, SwapInfo::NoSwap, "start".into()), vec![])];
-    st.states += 1;
-    st.per_depth.push(1);
+    let mut frontier: Vec<(ScheduleWithInfo, Vec<String>)> = vec![(ScheduleWithInfo::new(start.clone(), SwapInfo::NoSwap, "start".into()), vec![])];
+    // further roots, far from the start: guided walks through the real neighbourhood (see `guided_roots`)
+    for (root, walk) in guided_roots(&nb, &start) {
+        if seen.insert(ranked_key(root.get_schedule())) {
+            frontier.push((root, walk));
+            st.guided_roots += 1;
+        }
+    }
+    st.states += frontier.len();
+    st.per_depth.push(frontier.len());
     for d in 0..=depth {
         // candidates of every state of this level are generated and checked; only up to `depth` levels are expanded
-        let nthreads = 8usize;
-        let chunk = ((frontier.len() + nthreads - 1) / nthreads).max(1);
-        // per state: (candidates with their keys, kinds, violations)
-        type PerState = (Vec<(String, ScheduleWithInfo)>, Vec<&'static str>, Vec<Found>);
+        let nthreads = 16usize;
+        // per state: (candidates with their keys - the schedule itself only if it may be expanded -, kinds, violations)
+        type PerState = (Vec<(String, Option<ScheduleWithInfo>)>, Vec<&'static str>, Vec<Found>);
+        let mut next = vec![];
+        let mut idx = 0usize;
+        // the level is processed in batches so that only one batch's candidates are in memory at a time
+        for batch in frontier.chunks(1024) {
+        let chunk = ((batch.len() + nthreads - 1) / nthreads).max(1);
         let results: Vec<Vec<PerState>> = std::thread::scope(|sc| {
-            let hs: Vec<_> = frontier
+            let hs: Vec<_> = batch
                 .chunks(chunk)
                 .map(|items| {
                     let nb = &nb;
@@ -87,13 +178,11 @@ fn explore(a: &Arena, arena_id: usize, depth: usize, limited: bool, st: &mut Sta
                             let mut fnd: Vec<Found> = vec![];
                             let bk = schedule_key(base.get_schedule());
                             let bc = caches_key(base.get_schedule());
-                            let r = std::panic::catch_unwind(std::panic::AssertUnwindSafe(|| nb.neighbors_of(base).collect::<Vec<ScheduleWithInfo>>()));
-                            let cands = match r {
+                            let cands = match generate(nb, base) {
                                 Ok(c) => c,
-                                Err(_) => {
-                                    let (site, msg) = crate::pool::take_last_panic_any_thread().unwrap_or(("?".into(), "?".into()));
+                                Err((site, msg)) => {
                                     let short: String = msg.chars().take(80).collect();
-                                    fnd.push(Found { arena: arena_id, walk: walk.clone(), clause: format!("panic:{}:{}", site_without_line(&site), short), detail: format!("generating the candidates panicked at {}: {}", site, short) });
+                                    fnd.push(Found { arena: arena_id, walk: walk.clone(), clause: "panic:candidate-generation".to_string(), detail: format!("generating the candidates panicked at {}: {}; base schedule: {}", site, short, tours_text(a, base.get_schedule())) });
                                     out.push((vec![], vec![], fnd));
                                     continue;
                                 }
@@ -124,7 +213,8 @@ fn explore(a: &Arena, arena_id: usize, depth: usize, limited: bool, st: &mut Sta
                                         fnd.push(Found { arena: arena_id, walk: w, clause: cl, detail: de });
                                     }
                                 }
-                                keyed.push((ranked_key(c.get_schedule()), c));
+                                let k = ranked_key(c.get_schedule());
+                                keyed.push((k, if d < depth { Some(c) } else { None }));
                             }
                             out.push((keyed, kinds, fnd));
                         }
@@ -134,8 +224,6 @@ fn explore(a: &Arena, arena_id: usize, depth: usize, limited: bool, st: &mut Sta
                 .collect();
             hs.into_iter().map(|h| h.join().expect("explorer thread")).collect()
         });
-        let mut next = vec![];
-        let mut idx = 0usize;
         for chunk_res in results {
             for (keyed, kinds, fnd) in chunk_res {
                 let walk = frontier[idx].1.clone();
@@ -152,7 +240,7 @@ fn explore(a: &Arena, arena_id: usize, depth: usize, limited: bool, st: &mut Sta
                 for (k, c) in keyed {
                     if seen.insert(k) {
                         st.distinct_candidate_schedules += 1;
-                        if d < depth {
+                        if let Some(c) = c {
                             let mut w = walk.clone();
                             w.push(c.get_print_text().to_string());
                             next.push((c, w));
@@ -160,6 +248,7 @@ fn explore(a: &Arena, arena_id: usize, depth: usize, limited: bool, st: &mut Sta
                     }
                 }
             }
+        }
         }
         if d < depth {
             st.states += next.len();
@@ -186,25 +275,21 @@ fn replay_walk(a: &Arena, arena_id: usize, limited: bool, walk: &[String]) -> Re
     };
     let mut cur = ScheduleWithInfo::new(start, SwapInfo::NoSwap, "start".into());
     for (i, step) in walk.iter().enumerate() {
-        let r = std::panic::catch_unwind(std::panic::AssertUnwindSafe(|| nb.neighbors_of(&cur).collect::<Vec<ScheduleWithInfo>>()));
-        let cands = match r {
+        let cands = match generate(&nb, &cur) {
             Ok(c) => c,
-            Err(_) => {
-                let (site, msg) = crate::pool::take_last_panic_any_thread().unwrap_or(("?".into(), "?".into()));
+            Err((site, msg)) => {
                 let short: String = msg.chars().take(80).collect();
-                return Ok(vec![(format!("panic:{}:{}", site_without_line(&site), short), format!("generating the candidates panicked at {}", site))]);
+                return Ok(vec![("panic:candidate-generation".to_string(), format!("generating the candidates panicked at {}: {}", site, short))]);
             }
         };
         let nxt = cands.into_iter().find(|c| c.get_print_text() == step).ok_or_else(|| format!("walk diverged at step {}: no candidate '{}'", i + 1, step))?;
         cur = nxt;
     }
-    if walk.is_empty() {
-        // a violation about the base: regenerate
-        let r = std::panic::catch_unwind(std::panic::AssertUnwindSafe(|| nb.neighbors_of(&cur).collect::<Vec<ScheduleWithInfo>>()));
-        if r.is_err() {
-            let (site, msg) = crate::pool::take_last_panic_any_thread().unwrap_or(("?".into(), "?".into()));
+    {
+        // a violation may be about generating the candidates of the schedule the walk ends in: regenerate
+        if let Err((site, msg)) = generate(&nb, &cur) {
             let short: String = msg.chars().take(80).collect();
-            return Ok(vec![(format!("panic:{}:{}", site_without_line(&site), short), format!("generating the candidates panicked at {}", site))]);
+            return Ok(vec![("panic:candidate-generation".to_string(), format!("generating the candidates panicked at {}: {}", site, short))]);
         }
     }
     let mut cs = C09Stats { differential_checked: 0, differential_skipped: 0 };
@@ -215,33 +300,31 @@ fn replay_walk(a: &Arena, arena_id: usize, limited: bool, walk: &[String]) -> Re
 
 pub fn check(tier: &str) -> i32 {
     let mut report = Report::new("C11", tier, "model_checking");
-    let depth: usize = std::env::var("RSV_DEPTH").ok().and_then(|s| s.parse().ok()).unwrap_or(if tier == "thorough" { 3 } else { 2 });
+    let depth: usize = std::env::var("RSV_DEPTH").ok().and_then(|s| s.parse().ok()).unwrap_or(if tier == "thorough" { 4 } else { 3 });
     let arena_ids: Vec<usize> = match std::env::var("RSV_ARENAS") {
         Ok(a) => a.split(',').filter_map(|x| x.parse().ok()).collect(),
-        Err(_) => vec![0, 1, 2, 3, 4],
+        Err(_) => vec![0, 1, 2, 3, 4, 5, 6],
     };
     let variants: Vec<bool> = if tier == "thorough" { vec![true, false] } else { vec![true] };
+    // hash seeds of the candidate generation (what the neighbourhood offers depends on hash-map orders)
+    let seeds: Vec<u64> = match std::env::var("RSV_SEEDS") {
+        Ok(s) => s.split(',').filter_map(|x| x.parse().ok()).collect(),
+        Err(_) => if tier == "thorough" { vec![1, 2] } else { vec![1] },
+    };
     let mut total = Stats::default();
     let mut found: Vec<Found> = vec![];
     let mut per_arena = vec![];
     let mut arenas = vec![];
     for &i in &arena_ids {
         let a = load_arena(i);
-        for &limited in &variants {
+        for &(limited, seed) in &variants.iter().flat_map(|l| seeds.iter().map(move |s| (*l, *s))).collect::<Vec<_>>() {
+            GEN_SEED.store(seed, std::sync::atomic::Ordering::SeqCst);
             // smaller arenas go one step deeper in the thorough tier
-            let depth = if tier == "thorough" && std::env::var("RSV_DEPTH").is_err() && matches!(i, 1 | 2 | 3) { depth + 1 } else { depth };
+            let depth = if tier == "thorough" && std::env::var("RSV_DEPTH").is_err() && matches!(i, 1 | 3 | 6) { depth + 1 } else { depth };
             let mut st = Stats::default();
             let mut f = vec![];
             explore(&a, i, depth, limited, &mut st, &mut f);
-            if tier == "thorough" {
-                let mut st2 = Stats::default();
-                let mut f2 = vec![];
-                explore(&a, i, depth, limited, &mut st2, &mut f2);
-                if (st.states, st.candidates) != (st2.states, st2.candidates) {
-                    machinery_error("C11", &format!("two runs disagree on arena {}: {:?} vs {:?}", a.name, (st.states, st.candidates), (st2.states, st2.candidates)));
-                }
-            }
-            per_arena.push(json!({"arena": a.name, "walk_length": depth, "code": a.code, "neighbourhood": if limited { "solver parameters (segments <= 3 h, overhead threshold 10 min)" } else { "unlimited segments, no threshold" }, "states_expanded": st.states, "candidates": st.candidates, "distinct_candidate_schedules": st.distinct_candidate_schedules, "states_per_depth": st.per_depth, "candidates_per_kind": st.per_kind}));
+            per_arena.push(json!({"arena": a.name, "hash_seed": seed, "guided_roots": st.guided_roots, "walk_length": depth, "code": a.code, "neighbourhood": if limited { "solver parameters (segments <= 3 h, overhead threshold 10 min)" } else { "unlimited segments, no threshold" }, "states_expanded": st.states, "candidates": st.candidates, "distinct_candidate_schedules": st.distinct_candidate_schedules, "states_per_depth": st.per_depth, "candidates_per_kind": st.per_kind}));
             total.states += st.states;
             total.candidates += st.candidates;
             total.distinct_candidate_schedules += st.distinct_candidate_schedules;
@@ -249,7 +332,7 @@ pub fn check(tier: &str) -> i32 {
                 *total.per_kind.entry(k).or_insert(0) += c;
             }
             for mut x in f {
-                x.walk.insert(0, if limited { "limited".into() } else { "unlimited".into() });
+                x.walk.insert(0, format!("{}#{}", if limited { "limited" } else { "unlimited" }, seed));
                 found.push(x);
             }
         }
@@ -267,23 +350,26 @@ pub fn check(tier: &str) -> i32 {
         }
         kept += 1;
         let a = &arenas.iter().find(|(i, _)| *i == f.arena).unwrap().1;
-        let limited = f.walk[0] == "limited";
+        let limited = f.walk[0].starts_with("limited");
+        let seed: u64 = f.walk[0].split('#').nth(1).and_then(|x| x.parse().ok()).unwrap_or(1);
+        GEN_SEED.store(seed, std::sync::atomic::Ordering::SeqCst);
         let walk: Vec<String> = f.walk[1..].to_vec();
         if kept <= 3 {
             let r1 = replay_walk(a, f.arena, limited, &walk);
             let r2 = replay_walk(a, f.arena, limited, &walk);
-            if r1 != r2 {
+            let clauses = |r: &Result<Vec<(String, String)>, String>| r.clone().map(|v| v.into_iter().map(|(c, _)| c).collect::<Vec<_>>());
+            if clauses(&r1) != clauses(&r2) {
                 machinery_error("C11", &format!("replay diverged: {:?} vs {:?}", r1, r2));
             }
             if !r1.map(|v| v.iter().any(|(c, _)| *c == f.clause) || f.clause == "base-modified").unwrap_or(false) {
                 machinery_error("C11", &format!("violation {} did not reproduce on replay", f.clause));
             }
         }
-        let sig = if f.clause.starts_with("panic:") { f.clause.clone() } else { format!("{}:{}:{}", f.clause, a.name, digest(&walk.join("|"))) };
+        let sig = if f.clause.starts_with("panic:") { f.clause.clone() } else { format!("{}:{}:{}", f.clause, a.name, digest(&format!("{}|{}", seed, walk.join("|")))) };
         report.violation(Violation {
             signature: sig,
-            what: format!("{}: {} -- arena {} after the walk {:?}", f.clause, f.detail, a.name, walk),
-            replay: json!({"engine": "nbh-mc", "arena": ARENAS[f.arena].name, "arena_index": f.arena, "arena_code": a.code, "limited": limited, "walk": walk, "failing_clause": f.clause}),
+            what: format!("{}: {} -- arena {} (hash seed {}) after the walk {:?}", f.clause, f.detail, a.name, seed, walk),
+            replay: json!({"engine": "nbh-mc", "arena": ARENAS[f.arena].name, "arena_index": f.arena, "arena_code": a.code, "limited": limited, "hash_seed": seed, "walk": walk, "failing_clause": f.clause}),
         });
     }
     report.violation_total = found.len();
@@ -312,6 +398,7 @@ pub fn replay(path: &str) -> i32 {
     let i = r["arena_index"].as_u64().unwrap_or(0) as usize;
     let a = load_arena(i);
     let walk: Vec<String> = r["walk"].as_array().map(|w| w.iter().filter_map(|x| x.as_str().map(|s| s.to_string())).collect()).unwrap_or_default();
+    GEN_SEED.store(r["hash_seed"].as_u64().unwrap_or(1), std::sync::atomic::Ordering::SeqCst);
     match replay_walk(&a, i, r["limited"].as_bool().unwrap_or(true), &walk) {
         Ok(v) if v.is_empty() => {
             crate::say!("replay passes");
@@ -326,4 +413,75 @@ pub fn replay(path: &str) -> i32 {
         }
         Err(e) => machinery_error("C11", &e),
     }
+}
+
+/// development aid: after re-walking a recorded walk, apply every path exchange (provider, segment, receiver)
+/// step by step through the Schedule API and print the ones that panic
+pub fn debug(path: &str) -> i32 {
+    use solution::segment::Segment;
+    let txt = std::fs::read_to_string(path).expect("replay file");
+    let r: Value = serde_json::from_str(&txt).expect("json");
+    let i = r["arena_index"].as_u64().unwrap_or(0) as usize;
+    let a = load_arena(i);
+    let walk: Vec<String> = r["walk"].as_array().map(|w| w.iter().filter_map(|x| x.as_str().map(|s| s.to_string())).collect()).unwrap_or_default();
+    GEN_SEED.store(r["hash_seed"].as_u64().unwrap_or(1), std::sync::atomic::Ordering::SeqCst);
+    let nb = neighbourhood(&a, r["limited"].as_bool().unwrap_or(true));
+    let start = a.inits.iter().find(|(n, _)| *n == "min_cost_flow+improve_depots").unwrap().1.clone();
+    let mut cur = ScheduleWithInfo::new(start, SwapInfo::NoSwap, "start".into());
+    for step in &walk {
+        let cands: Vec<ScheduleWithInfo> = generate(&nb, &cur).expect("candidates");
+        let texts: Vec<String> = cands.iter().map(|c| c.get_print_text().to_string()).collect();
+        cur = match cands.into_iter().find(|c| c.get_print_text() == step) {
+            Some(c) => c,
+            None => {
+                let s = cur.get_schedule();
+                for v in s.vehicles_iter_all().chain(s.dummy_iter()) {
+                    crate::say!("{}: {:?}", v, s.tour_of(v).unwrap().all_nodes_iter().map(|n| a.nw.node(n).id().to_string()).collect::<Vec<_>>());
+                }
+                crate::say!("no candidate {}; candidates: {:#?}", step, texts);
+                return 2;
+            }
+        };
+    }
+    let s = cur.get_schedule();
+    let name = |n: model::base_types::NodeIdx| a.nw.node(n).id().to_string();
+    for v in s.vehicles_iter_all().chain(s.dummy_iter()) {
+        crate::say!("{}: {:?}", v, s.tour_of(v).unwrap().all_nodes_iter().map(name).collect::<Vec<_>>());
+    }
+    crate::pool::install_panic_recorder_thread();
+    let all: Vec<_> = s.dummy_iter().chain(s.vehicles_iter_all()).collect();
+    for &p in &all {
+        let ns: Vec<_> = s.tour_of(p).unwrap().all_non_depot_nodes_iter().collect();
+        for x in 0..ns.len() {
+            for y in x..ns.len() {
+                let seg = Segment::new(ns[x], ns[y]);
+                if s.tour_of(p).unwrap().check_removable(seg).is_err() {
+                    continue;
+                }
+                for &rcv in &all {
+                    if rcv == p {
+                        continue;
+                    }
+                    let res = std::panic::catch_unwind(std::panic::AssertUnwindSafe(|| s.override_reassign(seg, p, rcv)));
+                    match res {
+                        Err(_) => crate::say!("override_reassign [{}..{}] {} -> {} PANICS {:?}", name(ns[x]), name(ns[y]), p, rcv, crate::pool::take_last_panic_any_thread()),
+                        Ok(Ok((first, Some(nd)))) if first.is_vehicle_or_dummy(p) => {
+                            let t = first.tour_of(nd).unwrap();
+                            let full = Segment::new(t.first_node(), t.last_node());
+                            let nodes: Vec<String> = t.all_nodes_iter().map(name).collect();
+                            let r2 = std::panic::catch_unwind(std::panic::AssertUnwindSafe(|| first.fit_reassign(full, nd, p).map(|_| ())));
+                            if r2.is_err() {
+                                crate::say!("after override_reassign [{}..{}] {} -> {}: new dummy {} = {:?}; fit_reassign(full, {}, {}) PANICS {:?}", name(ns[x]), name(ns[y]), p, rcv, nd, nodes, nd, p, crate::pool::take_last_panic_any_thread());
+                                for v in first.vehicles_iter_all().chain(first.dummy_iter()) {
+                                    crate::say!("   {}: {:?}", v, first.tour_of(v).unwrap().all_nodes_iter().map(name).collect::<Vec<_>>());
+                                }
+                            }
+                        }
+                        _ => {}
+                    }
+                }
+            }
+        }
+    }
+    0
 }
